@@ -798,6 +798,22 @@ def real_unitary(term, subs):
     return u[:d, :d], leak
 
 
+def gen_angle_k(rng):
+    """angle of a parametric op in units of pi/8.  RX/RY/RZ have period 4*pi (R(t + 2*pi) = -R(t)) and Phase has period 2*pi, and
+    qsub never normalises an angle, so the whole real line is legal input: inside one turn, exactly +-2*pi / +-4*pi / +-6*pi,
+    just around those thresholds, several turns away (odd and even numbers of turns), and off the pi/8 grid"""
+    r = rng.random()
+    if r < 0.4:
+        return rng.randint(-9, 9)
+    if r < 0.55:
+        return rng.choice([16, -16, 32, -32, 48, -48])
+    if r < 0.7:
+        return rng.choice([16, 32, 48, 64]) * rng.choice([1, -1]) + rng.choice([-1, 1, 2, -3])
+    if r < 0.85:
+        return rng.randint(-80, 80)
+    return round(rng.uniform(-70, 70), 3)
+
+
 def gen_term(rng, subs, depth, under_ctl, max_arity):
     from oracle import qsub_dense as QD
 
@@ -808,7 +824,7 @@ def gen_term(rng, subs, depth, under_ctl, max_arity):
         if ar_max >= 3:
             pool += ["Toffoli"] * 2
         name = rng.choice(pool)
-        return ("prim", name, rng.randint(-9, 9) if name in QD.PARAM else None)
+        return ("prim", name, gen_angle_k(rng) if name in QD.PARAM else None)
 
     r = rng.random()
     if depth <= 0 or r < 0.25:
@@ -1005,11 +1021,18 @@ def wrapper_validate(ctx: Ctx, n_random: int):
     n_eval = 0
     # 1. every std op alone under Inverse / Controlled / Controlled∘Controlled / Controlled∘Inverse / MultiControlled
     for name in PRIM1 + PRIM23:
-        ks = [None] if name not in QD.PARAM else [rng.randint(-9, 9), 3]
+        # parametric ops: inside one turn, and at / beyond the 2*pi and 4*pi thresholds with either sign (an odd and an even
+        # number of whole turns away from the principal range), where R(t) and R(t mod 2*pi) differ by the sign that a
+        # control turns into a relative phase
+        ks = [None] if name not in QD.PARAM else [rng.randint(-9, 9), 3, 16, -16, 32, -32, rng.randint(17, 31), -rng.randint(17, 31),
+                                                  rng.randint(33, 47), -rng.randint(33, 47), gen_angle_k(rng)]
         for k in ks:
             base = ("prim", name, k)
             forms = [("inv", base), ("ctl", base), ("ctl", ("inv", base)), ("inv", ("ctl", base)), ("ctl", ("ctl", base)),
                      ("mctl", base, 2, rng.randrange(4))]
+            if name in QD.PARAM:
+                forms += [("mctl", ("inv", base), 1, 1), ("mctl", ("inv", base), 2, rng.randrange(4)),
+                          ("inv", ("mctl", base, 2, rng.randrange(4))), ("ctl", ("inv", ("inv", base)))]
             for t in forms:
                 if QD.arity(t, {}) > 5:
                     continue
@@ -1043,6 +1066,16 @@ def wrapper_validate(ctx: Ctx, n_random: int):
             ctx.count("wrapper", "phase:" + ("ok" if r is None else "MISMATCH"))
             if r not in (None, "skip"):
                 ctx.count("wrapper_keys", report_bad(ctx, t, subs, r))
+    # 2b. a user sub (no tracked phase) containing a rotation of any magnitude, inverted as a whole under a control
+    for name in sorted(QD.PARAM):
+        for k in (rng.randint(-9, 9), rng.choice([16, -16, 32, -32]), rng.choice([1, -1]) * rng.randint(17, 31), gen_angle_k(rng)):
+            subs = {0: (2, 0, 0, [(("prim", "H", None), (1,)), (("prim", name, k), (0,)), (("prim", "CNOT", None), (0, 1))])}
+            for t in (("ctl", ("inv", ("user", 0))), ("inv", ("ctl", ("user", 0))), ("mctl", ("inv", ("user", 0)), 2, 3)):
+                r = check_term(ctx, t, subs)
+                n_eval += 1
+                ctx.count("wrapper", "sub-rotation:" + ("ok" if r is None else "skip" if r == "skip" else "MISMATCH"))
+                if r not in (None, "skip"):
+                    ctx.count("wrapper_keys", report_bad(ctx, t, subs, r))
     # 3. random nestings; a mismatch is attributed to a known finding only if correcting exactly the known rows
     #    (class `patched`) makes this very nesting agree with the oracle
     for _ in range(n_random):
@@ -1270,7 +1303,8 @@ def rich_programs(ctx: Ctx, n_cases: int):
         r = rng.random()
         if r < 0.3:
             name = rng.choice(RICHP)
-            ang = rng.choice([rng.uniform(-7, 7), rng.randint(-9, 9) * math.pi / 8, 0.0])
+            ang = rng.choice([rng.uniform(-7, 7), rng.uniform(-30, 30), rng.randint(-9, 9) * math.pi / 8,
+                              rng.choice([2, -2, 4, -4]) * math.pi, 0.0])
             return getattr(std, name)(float(ang)), 1
         if r < 0.6 or maxar < 2:
             return getattr(std, rng.choice(RICH1)), 1
